@@ -78,7 +78,7 @@ structure DS where
   st : Option St := none
 
 def actName : Act → Addr × String
-  | .dial a => (a, "dial") | .listWatch a => (a, "lw") | .role a => (a, "role") | .close a => (a, "close")
+  | .dial a => (a, "dial") | .listWatch a => (a, "lw") | .role a _ => (a, "role") | .close a => (a, "close")
 
 def showActs (acts : List Act) : String :=
   let named := acts.map actName
@@ -139,7 +139,9 @@ def step (ds : DS) (ws : List String) : DS × String :=
         else if kind == "rbm" then .rebootMaster named addr
         else if kind == "slv" then .slaveChange named
         else .other
-      let (s1, w1, acts, _) := onEvent s (toWorld ds.dw) ev fuel budget
+      let (s1, w1, acts, _) :=
+        if kind == "brk" then refreshRetry fuel s (toWorld ds.dw) budget   -- subscription break: refreshRetry()
+        else onEvent s (toWorld ds.dw) ev fuel budget
       ({ dw := fromWorld ds.dw w1, st := some s1 }, s!"ok acts={showActs acts} {showSt s1}")
   | "do" :: r =>
     match ds.st with
@@ -156,6 +158,14 @@ def step (ds : DS) (ws : List String) : DS × String :=
     let reported := field r "reported" == some "1"
     let want := if field r "kind" == some "R" then "S" else "M"
     (ds, if closed || (reported && field r "last" == some want) then "ok" else "bad")
+  | "!eval" :: r =>
+    -- the specification after a completed switch evaluation, from the fakes' ground truth: the connection
+    -- that now carries the traffic is closed (commands fail), or belongs to an address named in that role
+    -- during this evaluation AND answered ROLE with that role on this connection during this evaluation
+    let closed := field r "closed" == some "1"
+    let named := field r "named" == some "1"
+    let want := if field r "kind" == some "R" then "S" else "M"
+    (ds, if closed || (named && field r "role" == some want) then "ok" else "bad")
   | _ => (ds, "bad-op")
 
 def main : IO Unit := Hex.lineLoop ({} : DS) step
